@@ -1044,3 +1044,56 @@ func (q *Q) MemAt(key, loc, ver string, at *ssa.BasicBlock) Iv {
 	iv := q.memVersion(key, loc, ver, map[string]bool{})
 	return iv.meet(q.guardBound(loc+"@"+ver, at))
 }
+
+// WithCallees makes q evaluate calls of small repository functions of
+// integer parameters: the result is the hull, over the callee's returns, of
+// the returned value's interval computed in the callee with each parameter
+// bounded by its argument's interval at the call (depth-limited; other
+// callees stay unknown).
+func (q *Q) WithCallees(sx *symx.Ctx, isRepo func(*ssa.Function) bool) *Q {
+	var hook func(depth int) func(q *Q, call *ssa.Call, at *ssa.BasicBlock) (Iv, bool)
+	hook = func(depth int) func(q *Q, call *ssa.Call, at *ssa.BasicBlock) (Iv, bool) {
+		return func(cq *Q, call *ssa.Call, at *ssa.BasicBlock) (Iv, bool) {
+			g := call.Common().StaticCallee()
+			if g == nil || g.Blocks == nil || !isRepo(g) || depth > 2 || len(g.Blocks) > 12 || g.Signature.Results().Len() != 1 {
+				return Iv{}, false
+			}
+			if b, ok := g.Signature.Results().At(0).Type().Underlying().(*types.Basic); !ok || b.Info()&types.IsInteger == 0 {
+				return Iv{}, false
+			}
+			args := call.Common().Args
+			argIv := map[*ssa.Parameter]Iv{}
+			for i, p := range g.Params {
+				if i < len(args) {
+					if b, ok := p.Type().Underlying().(*types.Basic); ok && b.Info()&types.IsInteger != 0 {
+						argIv[p] = cq.At(args[i], at)
+					}
+				}
+			}
+			gq := New(sx.Of(g))
+			gq.Strict = cq.Strict
+			gq.Param = func(p *ssa.Parameter) Iv { return argIv[p] }
+			gq.Callee = hook(depth + 1)
+			var out Iv
+			first := true
+			for _, b := range g.Blocks {
+				ret, ok := b.Instrs[len(b.Instrs)-1].(*ssa.Return)
+				if !ok || len(ret.Results) != 1 {
+					continue
+				}
+				iv := gq.At(ret.Results[0], b)
+				if first {
+					out, first = iv, false
+				} else {
+					out = out.hull(iv)
+				}
+			}
+			if first {
+				return Iv{}, false
+			}
+			return out, true
+		}
+	}
+	q.Callee = hook(0)
+	return q
+}
